@@ -60,6 +60,7 @@ type loopInfo struct {
 	hdrState State
 	preAlloc string
 	modRefs  map[string][]modT // heap base name -> declared modification targets
+	entryVals map[*ssa.Phi]Val // values of the header phis on loop entry (what pre(x) denotes for a loop variable)
 }
 
 // FnEnc encodes one function.
